@@ -33,8 +33,44 @@ def main():
         if a.startswith("--tier="):
             tier = a.split("=", 1)[1]
     scratch = "--scratch" in sys.argv[1:]
-    ids = args or sorted(d for d in os.listdir(SEEDED) if os.path.isdir(os.path.join(SEEDED, d)))
+    jobs = 1
+    outpath = None
+    for a in sys.argv[1:]:
+        if a.startswith("--jobs="):
+            jobs = int(a.split("=", 1)[1])
+        if a.startswith("--out="):
+            outpath = a.split("=", 1)[1]
+    ids = args or sorted(d for d in os.listdir(SEEDED) if os.path.exists(os.path.join(SEEDED, d, "patch.diff")))
     props = props or claimed()
+    if jobs > 1:
+        # shard the changes over `jobs` workers, each with its own scratch worktree; merge the results
+        assert scratch, "--jobs needs --scratch"
+        parts = []
+        procs = []
+        for i in range(jobs):
+            part = os.path.join(VERIF, "work", "seeded-part-%d.json" % i)
+            if os.path.exists(part):
+                os.unlink(part)
+            mine = ids[i::jobs]
+            if not mine:
+                continue
+            parts.append(part)
+            cmd = [sys.executable, os.path.abspath(__file__), "--scratch", "--out=" + part, "--tier=" + tier, "--props=" + ",".join(props)] + mine
+            procs.append(subprocess.Popen(cmd))
+        for pr in procs:
+            pr.wait()
+        results = {}
+        path = os.path.join(SEEDED, "RESULTS.json")
+        if os.path.exists(path):
+            results = json.load(open(path))
+        for part in parts:
+            if os.path.exists(part):
+                results.update(json.load(open(part)))
+        json.dump(results, open(path, "w"), indent=1, sort_keys=True)
+        missed = [k for k, v in results.items() if v.get("breaks") and v["breaks"] != "none" and v["breaks"] not in v["caught_by"]]
+        noisy = [k for k, v in results.items() if (not v.get("breaks") or v["breaks"] == "none") and v["caught_by"]]
+        print("merged %d results; not caught by own check: %s; alarms on harmless: %s" % (len(results), missed, noisy))
+        return
     repo = "/repo"
     cenv = dict(os.environ)
     if scratch:
@@ -45,7 +81,7 @@ def main():
     else:
         assert sh("git -C /repo status --porcelain --untracked-files=no").stdout.strip() == "", "/repo has local edits"
     results = {}
-    path = os.path.join(SEEDED, "RESULTS.json")
+    path = outpath or os.path.join(SEEDED, "RESULTS.json")
     if os.path.exists(path):
         results = json.load(open(path))
     for sid in ids:
